@@ -88,6 +88,15 @@ Ltac same := first [eassumption | solve [auto] | solve [intuition (eauto; congru
 Lemma step_inv s l s' : Inv s -> step true s l = Some s' -> Inv s'.
 Proof.
   intros HI Hs. inv_fields HI. destruct l; cbn [step] in Hs.
+  - (* LServeStart *)
+    destruct (a_pc s) eqn:Ha; try discriminate. destruct (done s) eqn:Hd; injection Hs as <-.
+    + constructor; cbn;
+      [> same | same | same | same | same | same | same | same
+       | intros c [H|H]; discriminate | intros c H; discriminate | same
+       | intros r H; injection H as <-; auto ].
+    + constructor; cbn;
+      [> same | same | same | same | same | same | same | same
+       | intros c [H|H]; discriminate | intros c H; discriminate | same | intros r H; discriminate ].
   - (* LConnect *)
     destruct (lis_closed s) eqn:Hl; [discriminate|]. injection Hs as <-.
     constructor; cbn;
@@ -114,7 +123,7 @@ Proof.
      | intros c [H|H]; discriminate | intros c H; discriminate | same
      | intros r H; injection H as <-; auto ].
   - (* LRegister *)
-    destruct (a_pc s) as [|c|c|r] eqn:Ha; try discriminate.
+    destruct (a_pc s) as [| |c|c|r] eqn:Ha; try discriminate.
     unfold sget in Hs. destruct (nth c (sess s) SNone) eqn:Hn; cbn [negb] in Hs; try discriminate.
     assert (Hlt: (c < length (sess s))%nat) by (apply Hacc; auto).
     cbn [andb] in Hs. destruct (done s) eqn:Hd; injection Hs as <-.
@@ -133,7 +142,7 @@ Proof.
        | intros c0 H; injection H as <-; apply nth_upd_same; assumption
        | rewrite upd_length; assumption | intros r H; discriminate ].
   - (* LSpawn *)
-    destruct (a_pc s) as [|c|c|r] eqn:Ha; try discriminate. injection Hs as <-.
+    destruct (a_pc s) as [| |c|c|r] eqn:Ha; try discriminate. injection Hs as <-.
     assert (Hlt: (c < length (sess s))%nat) by (apply Hacc; auto).
     constructor; cbn;
     [> rewrite cnt_upd by assumption; rewrite (Hspawn c eq_refl); cbn; lia | same | same | same | same | same | same | same
@@ -257,6 +266,7 @@ Lemma step_sess fixed s l s' : step fixed s l = Some s' ->
   exists c x, sess s' = upd c x (sess s) /\ (x = SEnded -> nth c (sess s) SNone = SClosed).
 Proof.
   intros Hs. destruct l; cbn [step] in Hs.
+  - destruct (a_pc s); try discriminate. destruct (done s); injection Hs as <-; left; reflexivity.
   - destruct (lis_closed s); [discriminate|]. injection Hs as <-. right; left; reflexivity.
   - destruct (a_pc s); try discriminate. destruct (backlog s); [discriminate|]. destruct (lis_closed s); [discriminate|].
     injection Hs as <-. left; reflexivity.
@@ -356,7 +366,7 @@ Theorem inflight_completes s l s' c :
 Proof.
   intros HI Hs Hc. inv_fields HI. unfold sget in *.
   assert (Hlt: (c < length (sess s))%nat) by (apply nth_not_none_lt; congruence).
-  destruct l as [| | | | |c0|c0|c0|c0| | | | | | | |]; cbn [step] in Hs;
+  destruct l as [| | | | | |c0|c0|c0|c0| | | | | | | |]; cbn [step] in Hs;
     try (left;
          repeat match type of Hs with
                 | context [match ?x with _ => _ end] => destruct x eqn:?; try discriminate
@@ -364,13 +374,13 @@ Proof.
   - (* LConnect *) destruct (lis_closed s); [discriminate|]. injection Hs as <-. cbn. left.
     split; [rewrite app_nth1 by assumption; assumption|reflexivity].
   - (* LRegister *)
-    destruct (a_pc s) as [|c0|c0|r]; try discriminate. unfold sget in Hs.
+    destruct (a_pc s) as [| |c0|c0|r]; try discriminate. unfold sget in Hs.
     destruct (nth c0 (sess s) SNone) eqn:Hn; cbn [negb] in Hs; try discriminate.
     assert (c0 <> c) by congruence.
     destruct (true && done s); injection Hs as <-; cbn; left;
       (split; [rewrite nth_upd_other by congruence; assumption|reflexivity]).
   - (* LSpawn *)
-    destruct (a_pc s) as [|c0|c0|r] eqn:Ha; try discriminate. injection Hs as <-. cbn.
+    destruct (a_pc s) as [| |c0|c0|r] eqn:Ha; try discriminate. injection Hs as <-. cbn.
     assert (c0 <> c) by (intros ->; rewrite (Hspawn c eq_refl) in Hc; discriminate).
     left. split; [rewrite nth_upd_other by congruence; assumption|reflexivity].
   - (* LReqStart *)
@@ -412,7 +422,7 @@ Proof. intros Hr. apply reachable_inv in Hr. inv_fields Hr. rewrite Hwg. apply c
 
 (* ---------------- the pinned tree: regression witness ---------------- *)
 Definition pinned_schedule : list label :=
-  [LConnect; LAcceptDequeue; LShCloseDone; LShCloseListener; LShStartWaiter; LWaitReturn; LWaitSignal;
+  [LServeStart; LConnect; LAcceptDequeue; LShCloseDone; LShCloseListener; LShStartWaiter; LWaitReturn; LWaitSignal;
    LShSelectDone; LRegister; LSpawn].
 
 Theorem pinned_refuted :
